@@ -108,11 +108,11 @@ func (r *rewriter) rewriteMethodCall(c *astutil.Cursor, x *ast.CallExpr, pkg, re
 		}
 	case pkg == "go.uber.org/zap" && recv == "Config" && name == "Build":
 		r.markOS("zap-build")
-		x.Args = append(x.Args, &ast.CallExpr{Fun: sos("ZapOptions")})
-		x.Ellipsis = x.Rparen
-		if !x.Ellipsis.IsValid() {
-			x.Ellipsis = 1
+		if x.Ellipsis.IsValid() {
+			unsup(r.fset, x.Pos(), "zap Config.Build with a variadic argument")
+			return
 		}
+		c.Replace(&ast.CallExpr{Fun: sos("ZapBuild"), Args: append([]ast.Expr{sel.X}, x.Args...)})
 	}
 }
 
